@@ -95,7 +95,7 @@ def generate(tier, rng):
                 for c in classes:
                     yield {"sps": [sp, other], "cache": cache, "damages": [{"job": 0, "kind": "byte", "off": off, "cls": c}]}
     # structural damages, multi-job
-    for i in range(2500 if tier == "quick" else 30000):
+    for i in range(6000 if tier == "quick" else 30000):
         k = rng.choice([1, 2, 2, 3, 4])
         sps = rng.sample(SPS, k)
         ndam = rng.randint(1, min(3, k))
